@@ -36,6 +36,7 @@ func rdU16(b []byte, off int) int { return int(binary.BigEndian.Uint16(b[off:]))
 
 func runC12(c *mon.Ctx) {
 	c12tables(c)
+	encodeAliasing(c, "tables", c.N(300, 20000), tableAliasEncoders)
 	c.Stratum("fonts", c.N(900, 20000), func(k *mon.Case) {
 		r := k.Rng
 		o := fontgen.Opts{Kind: []string{"glyf", "cff", "cid"}[k.Index%3]}
